@@ -517,3 +517,13 @@ package internal
 //@   ensures O4: doCalls == old(doCalls) + 1 ==> nrMethod == "OPTIONS" && lastReq != nil && lastReq.Method == "OPTIONS" && (!hasPrefix(resolved(c, path), "//") ==> urlParseOk(nrURL) && urlParsePath(nrURL) == resolved(c, path))
 //@   ensures O5: err == nil ==> doCalls == old(doCalls) + 1 && lastErr(c) == nil && lastStatus(c) / 100 == 2 && classes != nil && methods != nil && classes["1"]
 //@   ensures O6: err != nil ==> classes == nil && methods == nil
+
+//@ -- NewClient: a usable client or an error, never both; the endpoint is the parsed URL with "/" standing in for an empty path
+//@ -- (the precondition clientOK of the calls additionally needs a rooted path, which url.Parse gives for every absolute URL: T-url)
+//@ func internal.NewClient(c, endpoint) (cl, err)
+//@   nilable c
+//@   allocates
+//@   ensures N1: err == nil <==> urlParseOk(endpoint)
+//@   ensures N2: err == nil ==> cl != nil && fresh(cl) && cl.http != nil && cl.endpoint != nil && cl.endpoint.Path != "" && (urlParsePath(endpoint) != "" ==> cl.endpoint.Path == urlParsePath(endpoint)) && (urlParsePath(endpoint) == "" ==> cl.endpoint.Path == "/")
+//@   ensures N3: err != nil ==> cl == nil
+//@   ensures N4: c != nil ==> (err == nil ==> cl.http == c)
